@@ -2,12 +2,13 @@
 """tools/keep_seed.py <id> <name> '<needs>' '<detected_by json>' — file a confirmed seeded change under /verif/seeded/<name>/."""
 import json, os, shutil, sys
 pid, name, needs, det = sys.argv[1], sys.argv[2], sys.argv[3], json.loads(sys.argv[4])
-src = f"/tmp/seed-{pid}-out"; dst = f"/verif/seeded/{name}"
+PFX = os.environ.get("SEED_PREFIX", "seed")
+src = f"/tmp/{PFX}-{pid}-out"; dst = f"/verif/seeded/{name}"
 os.makedirs(dst, exist_ok=True)
 for f in ("patch.diff", "demo.patch", "confirm.txt"):
     if os.path.exists(f"{src}/{f}"): shutil.copy(f"{src}/{f}", f"{dst}/{f}")
 if os.path.exists(f"{src}/README.md"): shutil.copy(f"{src}/README.md", f"{dst}/author_notes.md")
-base = os.popen(f"git -C /tmp/seed-{pid} rev-parse HEAD").read().strip()
+base = os.popen(f"git -C /tmp/{PFX}-{pid} rev-parse HEAD").read().strip()
 meta = {
   "property": pid, "base_commit": base,
   "origin": "independent sub-agent given only the property text and a scratch worktree of /repo (nothing from /verif)",
@@ -15,7 +16,7 @@ meta = {
   "ran": {
     "by_author": "see author_notes.md (crate builds, crate tests with the change, demonstration with / without the change)",
     "by_coordinator": "tools/confirm_seed.sh in the scratch worktree: crate unit tests with the change (e2e tests skipped: timing-sensitive on the loaded machine) — only the demonstration fails; demonstration fails with the change and passes with patch.diff reverted (confirm.txt)",
-    "check_run": "tools/mutant_run.sh /tmp/seed-%s %s --tier %s (harness copy built against the worktree; /repo untouched)" % (pid, pid, det.get("tier", "quick")),
+    "check_run": "tools/mutant_run.sh /tmp/" + PFX + "-%s %s --tier %s (harness copy built against the worktree; /repo untouched)" % (pid, pid, det.get("tier", "quick")),
   },
   "detected_by": det,
 }
